@@ -17,7 +17,7 @@
 From Coq Require Import ZArith List Znumtheory Lia.
 From PySnark.Base Require Import FieldZ.
 From PySnark.Model Require Import Lc Sym Gadgets Api Prog.
-From PySnark.Proofs Require Import Sound Meta FieldOk ProgOK Complete Adv AdvGadgets NoRaise NoRaiseGadgets NoRaiseGuarded.
+From PySnark.Proofs Require Import Sound Meta FieldOk ProgOK Complete Adv AdvGadgets NoRaise NoRaiseGadgets NoRaiseGuarded MergeValues IfRule.
 Import ListNotations.
 Open Scope Z_scope.
 
@@ -141,3 +141,29 @@ Print Assumptions C07_guarded_code_keeps_the_system_satisfied.
 Print Assumptions C07_true_guard_transparent_for_gadgets.
 Print Assumptions C07_false_guard_inert.
 Print Assumptions C07_region_flag.
+
+(* A whole block that is not taken is inert for the program's variables: for ANY body (any statements, any nesting) that completes,
+   if _if(c): body ; _endif()  with c = 0 leaves every variable with the value it had before the block; with c = 1 it leaves the values
+   the body computed (instance of the Hoare rule IfRule.oif_rule, see C09_if_block_rule). *)
+Theorem C07_block_not_taken_keeps_every_variable : forall (p : Z), prime p -> forall ins ig (c : cfg) (cn : nat) (thenb : list stmt) (b : @Prog.bst p) o cb (olds : list (nat * Sym.slc p)) s sg
+    (R : list (nat * Sym.slc p) -> Sym.store -> Prop) (Q : @Prog.bst p -> @Gadgets.gst p -> Sym.store -> Prop),
+  WpBase.Inv ins ig s sg -> rget (bregs b) cn = PBool o cb -> MergeValues.sc s cb -> bvals b = IfRule.lcs olds ->
+  Sym.veval p ins ig sg (sval cb) = 0 ->
+  (forall orig ic s1 sg1, WpBase.Inv ins ig s1 sg1 -> Meta.ext sg sg1 -> tvalid ins ig orig s1 sg1 ->
+     let cx := {| bk := KIf; bcond := PBool o cb; bbak := IfRule.lcs olds; borig := orig; bnodef := None; bicond := Some ic |} in
+     Wp.wp ins ig (gen_stmts c thenb (with_stack b (cx :: bstack b))) s1 sg1
+        (fun b2 s2 sg2 => WpBase.Inv ins ig s2 sg2 /\ Meta.ext sg1 sg2 /\ bstack b2 = cx :: bstack b /\
+           exists news, bvals b2 = IfRule.lcs news /\ NoDup (map fst news) /\ Forall (MergeValues.pre ins ig (IfRule.lcs olds) s2 sg2) news /\ R news sg2)) ->
+  (forall b3 s3 sg3 news sgb, WpBase.Inv ins ig s3 sg3 -> Meta.ext sg sgb -> Meta.ext sgb sg3 -> R news sgb -> bstack b3 = bstack b ->
+     (forall nm t, In (nm, t) news -> exists x f, dget (bvals b3) nm = Some (PLC x) /\ dget (IfRule.lcs olds) nm = Some (PLC f) /\
+        Sym.veval p ins ig sg3 (sval x) = Sym.veval p ins ig sgb (sval f)) ->
+     Q b3 s3 sg3) ->
+  Wp.wp ins ig (gen_top c (SOIf cn thenb [] None) b) s sg Q.
+Proof.
+  intros p Hp ins ig c cn thenb b o cb olds s sg R Q I Hc Scb Hv Hz HB HQ.
+  apply (IfRule.oif_rule ins ig (field_ok_prime p Hp) c cn thenb b o cb olds s sg R); try assumption.
+  intros b3 s3 sg3 news sgb I3 E1 E2 HR Hs Hl. apply (HQ b3 s3 sg3 news sgb); try assumption.
+  intros nm t Hin. destruct (Hl nm t Hin) as (x & f & A & B & _ & V). exists x, f. split; [exact A|]. split; [exact B|].
+  rewrite V, Hz. unfold MergeValues.sel. ring.
+Qed.
+Print Assumptions C07_block_not_taken_keeps_every_variable.
